@@ -78,6 +78,10 @@ class Cls:
             params["data"] = data[0]
         if dag:
             params["_dagger"] = True
+        if self.name == "rigid" and name >= 200 and all(z == 0 for _, z in dom + cod):
+            # a plain monoidal box (plain cat.Ob wires) used inside a rigid diagram
+            plain = lambda t: monoidal.Ty(*[cat.Ob("n%d" % n) for n, _ in t])   # noqa: E731
+            return monoidal.Box("n%d" % name, plain(dom), plain(cod), **params)
         return self.Box("n%d" % name, self.ty(dom), self.ty(cod), **params)
 
 
